@@ -30,7 +30,10 @@ from tradingenv.rewards import RewardSimpleReturn
 from tradingenv.broker.fees import BrokerFees
 
 ID = "C15"
-RULE = ("episodes/transmitter: Hypothesis draws a grid of 2-12 timesteps (gaps 2..4000 minutes, so dates change), "
+RULE = ("episodes/transmitter: Hypothesis draws a grid of 2-12 timesteps (gaps 2..4000 minutes, so dates change) handed over "
+        "in a generated order (chronological, newest-first, rotated, shuffled, with repeated entries, as list or "
+        "DatetimeIndex, optionally partly through add_timesteps), markov_reset on/off (then no event precedes the "
+        "earliest grid point), "
         "0-2 quote events per grid point placed on the point or strictly inside the preceding gap (some points bear "
         "no event; events after the last point are dropped), 0-3 possibly overlapping fold windows whose bounds lie "
         "on / strictly between / outside grid points, the selected fold, how the length is given (none, constructor "
@@ -245,7 +248,11 @@ def build_transmitter(case, grid, markov=False):
 
 
 def describe(case, grid, slots, lo, hi):
-    return "grid=%s slots=%s fold=[%s,%s]" % (grid, slots, lo, hi)
+    given = case.get("given") or list(range(len(grid)))
+    extra = ""
+    if given != list(range(len(grid))):
+        extra = " given-order=%s%s" % (given, " (last %d via add_timesteps)" % case["later"] if case.get("later") else "")
+    return "grid=%s%s%s slots=%s fold=[%s,%s]" % (grid, extra, " markov_reset" if case.get("markov") else "", slots, lo, hi)
 
 
 def classify(res, case, grid, slots, lo, hi, steps, n):
@@ -737,5 +744,8 @@ PARTS = [
 #       version (no default reset ever followed a reset with a length on the same environment); caught since the
 #       follow-up resets were added (classes followup-default / followup-length / reset(L)-then-default).
 #   seeded C15_A, C15_B, C15_D: caught (walk_forward / episodes / episodes).
+#   seeded C15_E (markov lower bound read before the grid is sorted): MISSED while grids were always given sorted;
+#       caught since the grid is given in a generated order and markov_reset is generated in both parts.
+#   seeded C15_F: caught (episodes).
 # Out-of-quantifier observation (not asserted, not generated): episode_length=1 state (zero decisions) given to
 # TradingEnv.reset / Transmitter._reset is refused with ValueError because steps[: -(1 - 1)] == steps[:0] is empty.
